@@ -184,6 +184,7 @@ func TestStressJoinV1(t *testing.T) {
 					}
 					released <- struct{}{}
 				} else {
+					s = s[:cap(s)] // the consumer owns a copy-mode slice, spare capacity included
 					for i := range s {
 						s[i] = -1
 					}
